@@ -171,6 +171,8 @@ def check_cfg(ctx, fx, cfg):
     ctx.floor("R08.1", "registry operations (%s)" % cfg, len(roots_), 1 if cfg == "bare" else 6)
     for r in roots_:
         ctx.require(r.startswith("actor::service::"), "R08.1", "registry-user:%s@%s" % (r, cfg), "the service registry is accessed outside the registry operations of actor::service", fn=r, site=fx.fn(r)["loc"] if fx.fn(r) else None)
+    if cfg != "bare":
+        check_forwarders(ctx, fx, cfg, None)
     A = registry_alphabet()
     for f in users:
         b = ctx.body(fx, f)
@@ -245,6 +247,21 @@ def check_cfg(ctx, fx, cfg):
             ctx.require(ok, "R08.4", inst, "already_running must report Some(true) for a live and Some(false) for a terminated instance: it maps the entry through %s%s" % (lives, " with a negation" if nots else ""), fn=root, site=f["loc"], detail=lives)
         elif short == "from_registry_and_spawn":
             check_spawn_on_demand(ctx, fx, f, b, n, inst)
+
+
+def check_forwarders(ctx, fx, cfg, spawn_op):
+    """R08.5 Service::from_registry and ::setup are the spawn-on-demand operation (and nothing else)"""
+    for name in ("actor::service::Service::from_registry", "actor::service::Service::setup"):
+        f = fx.fn(name)
+        if not ctx.require(f is not None, "R08.5", "%s@%s" % (name.split("::")[-1], cfg), "%s not found" % name):
+            continue
+        b = ctx.body(fx, f)
+        calls = [t for _, t in b.normal_calls() if (t.get("callee") or "").endswith("::from_registry_and_spawn")]
+        ok = len(calls) == 1
+        if ok:
+            sk = sinks(b, calls[0]["dest"][0])
+            ok = calls[0]["dest"] == [0] or any(s["k"] == "ret" for s in sk) or any(s["k"] == "call" and (s["t"].get("callee") or "").endswith("FutureExt::map") for s in sk)
+        ctx.require(ok, "R08.5", "%s@%s" % (name.split("::")[-1], cfg), "%s must be the spawn-on-demand lookup" % name, fn=name, site=f["loc"])
 
 
 def filter_is_running(ctx, fx, b, t):
